@@ -116,6 +116,16 @@ CLAIMED = {
         ref='DESIGN.md §6 C09', note='slice theorems are stated for non-negative x (two\'s-complement negatives by instances + correspondence); bits->sint and string<->int round trips '
              'are covered by instances and the correspondence, not by a general theorem.',
         technique='Lean 4 proof (bit-level extensionality, numeral lemmas) + correspondence against big-integer oracle'),
+    'C14': dict(
+        text='Each list built-in on list values is the named List function for every evaluator of the operand (first/second/last/rest/length/list/+ '
+             'as concatenation and element append/zip; mapLoop_pure, foldLoop_pure: map and fold are List.map / List.foldl for state-neutral '
+             'element functions; range_spec; in_spec_ints), with the error guards the code has (first_empty_errors). Arrays refine a finite map '
+             'with insertion order: seta_get, seta_other, seta_order, seta_length, dela_spec, geta_missing_errors; keys compared by textual '
+             'form; aliasing through the heap (kernel-evaluated). Correspondence: list cases and array histories vs model; oracle = Python list/dict '
+             'incl. a second reference to every argument list.',
+        ref='DESIGN.md §6 C14', note='Immutability of Python list objects is a statement about the implementation and is established by the correspondence only. The library functions '
+             'written in WAL (reverse filter partition sort) are regenerated from std.wal and compared by execution; no inductive proof through the evaluator.',
+        technique='Lean 4 proof (operator = List function; finite-map refinement) + correspondence against Python list/dict oracle'),
 }
 
 REASONS_PENDING = 'check under construction in this round (DESIGN.md §13 build order); not a claim of inapplicability'
